@@ -674,5 +674,3 @@ func alterValuesFor(pos int) []int {
 	}
 	return []int{0, 7, 1 + pos%6}
 }
-
-var _ = testing.Short
